@@ -23,6 +23,8 @@ expressions on which the C05 theorems turn:
   k_trans_*              bodies of sel/prob/trans.py
   k_uc / k_uc_pmean      pmean + selection_intensity * sqrt(pvar);  epgc.dot(bvmat[cconfig, :])
   k_embv_acc / k_embv_avg                      avg + tmax ; avg / nrep                (selection problems' _calc_embv)
+  k_ohv                  ploidy * haplomat[:, xconfig, :, :].max((0, 2)).sum(1) with xconfig = xmap[rst:rsp, :] (all columns of the cross
+                         map; _calc_ohvmat's chunk loop, the factories' calls of it and _calc_xmap are checked structurally, fail closed)
   k_embvmat_rows / k_embvmat_loop / k_embvmat_nprog   rows of the replicate buffer, replicate loop count, progeny per replicate
                                                (DenseExpectedMaximumBreedingValueMatrix.from_gmod)
 
@@ -652,6 +654,57 @@ def translate(repo, gen_dir):
         # the buffer may only live outside the taxon loop if exactly the rows written are averaged; the row count then is not
         # a function of i alone and k_embvmat_rows = k_embvmat_loop (Proofs/C05_Kernel.v) fails
         pass
+
+    # ------------------------------------------------------------------ optimal haploid value table (_calc_ohvmat, all factories)
+    cls = "OptimalHaploidValueSelectionProblemMixin"
+    OHV = D + "OptimalHaploidValueSelectionProblem.py"
+    fn = P.find_function(repo, OHV, cls + "._calc_ohvmat")
+    e = P.the_assignment(fn, "out[rst:rsp, :]")
+    def ohv_expr(e):
+        """list-level fragment for the table row of one cross and one trait:  ploidy * G.max((0, 2)).sum(1)  with
+        G = haplomat[:, xconfig, :, :]  (m,k,d,h,t): the maximum runs over ALL phases (axis 0) and ALL columns of the cross-map
+        rows (axis 2), the sum over the blocks (axis 1 of what is left).  `gathered` = per block, the values of every
+        (phase, parent of the row)."""
+        if isinstance(e, ast.BinOp) and isinstance(e.op, ast.Mult) and isinstance(e.left, ast.Name) and e.left.id == "ploidy":
+            return "(Qmult ploidy %s)" % ohv_expr(e.right)
+        if isinstance(e, ast.Call) and isinstance(e.func, ast.Attribute) and e.func.attr == "sum" and [src(a) for a in e.args] == ["1"] and not e.keywords:
+            inner = e.func.value
+            if isinstance(inner, ast.Call) and isinstance(inner.func, ast.Attribute) and inner.func.attr == "max" and [src(a) for a in inner.args] == ["(0, 2)"] \
+                    and not inner.keywords and src(inner.func.value) == "haplomat[:, xconfig, :, :]":
+                return "(sum_blocks (map max_phases_parents gathered))"
+        raise P.Untranslatable("%s._calc_ohvmat: table expression %s (expected ploidy * haplomat[:, xconfig, :, :].max((0, 2)).sum(1))" % (cls, src(e)))
+    add("k_ohv", [("max_phases_parents sum_blocks", "list Q -> Q"), ("ploidy", "Q"), ("gathered", "list (list Q)")], "Q", ohv_expr(e),
+        "%s._calc_ohvmat: out[rst:rsp, :] = %s   [xconfig = %s: every column of the cross map]" % (cls, src(e), src(P.the_assignment(fn, "xconfig"))))
+    for nm, want in (("xconfig", "xmap[rst:rsp, :]"), ("nconfig", "xmap.shape[0]"), ("step", "nconfig if mem is None else mem"),
+                     ("out", "numpy.empty((nconfig, haplomat.shape[3]), dtype=haplomat.dtype)")):
+        if src(P.the_assignment(fn, nm)) != want:
+            raise P.Untranslatable("%s._calc_ohvmat: %s = %s (expected %s)" % (cls, nm, src(P.the_assignment(fn, nm)), want))
+    assigned = sorted({P._target_text(t) for n in ast.walk(fn) if isinstance(n, (ast.Assign, ast.AugAssign, ast.AnnAssign))
+                       for t in (n.targets if isinstance(n, ast.Assign) else [n.target])})
+    if assigned != sorted(["xconfig", "nconfig", "step", "out", "out[rst:rsp, :]"]):
+        raise P.Untranslatable("%s._calc_ohvmat: assignments to %s (expected only nconfig, out, step, xconfig, out[rst:rsp, :])" % (cls, assigned))
+    loops = the_for(fn)
+    if len(loops) != 1 or src(loops[0].target) != "(rst, rsp)" or src(loops[0].iter) != "zip(range(0, nconfig, step), srange(step, nconfig, step))":
+        raise P.Untranslatable("%s._calc_ohvmat: expected exactly one loop `for rst, rsp in zip(range(0, nconfig, step), srange(step, nconfig, step))`" % cls)
+    if src(P.the_return(fn)) != "out":
+        raise P.Untranslatable("%s._calc_ohvmat: returns %s" % (cls, src(P.the_return(fn))))
+    # every factory hands the whole cross map of the requested number of parents, and all phases (ploidy = haplomat.shape[0]), to it
+    for enc in ("Subset", "Real", "Integer", "Binary"):
+        c2 = "OptimalHaploidValue%sSelectionProblem" % enc
+        f2 = P.find_function(repo, OHV, c2 + ".from_pgmat_gpmod")
+        call = P.the_assignment(f2, "ohvmat")
+        kw = {k.arg: src(k.value) for k in call.keywords} if isinstance(call, ast.Call) else {}
+        if not (isinstance(call, ast.Call) and src(call.func) == "cls._calc_ohvmat" and not call.args
+                and {k: kw.get(k) for k in ("ploidy", "haplomat", "xmap")} == {"ploidy": "haplomat.shape[0]", "haplomat": "haplomat", "xmap": "xmap"} and set(kw) <= {"ploidy", "haplomat", "xmap", "mem"}):
+            raise P.Untranslatable("%s.from_pgmat_gpmod: ohvmat = %s" % (c2, src(call)))
+        for nm, want in (("xmap", "cls._calc_xmap(pgmat.ntaxa, nparent, unique_parents)"), ("haplomat", "cls._calc_haplomat(pgmat, gpmod, nhaploblk)")):
+            if src(P.the_assignment(f2, nm)) != want:
+                raise P.Untranslatable("%s.from_pgmat_gpmod: %s = %s (expected %s)" % (c2, nm, src(P.the_assignment(f2, nm)), want))
+    f2 = P.find_function(repo, OHV, cls + "._calc_xmap")
+    rets = [src(n.value) for n in ast.walk(f2) if isinstance(n, ast.Return)]
+    tests = [src(n.test) for n in ast.walk(f2) if isinstance(n, ast.If)]
+    if rets != ["numpy.array(list(triudix(ntaxa, nparent)))", "numpy.array(list(triuix(ntaxa, nparent)))"] or tests != ["unique_parents"]:
+        raise P.Untranslatable("%s._calc_xmap: returns %s under %s" % (cls, rets, tests))
 
     # ------------------------------------------------------------------ output
     tail = []
